@@ -4,7 +4,8 @@
       - [clean] of the v5 state machine returns exactly [held5] (index order), so what a failure
         leaves pending is a list equation, not a permutation;
       - a reconnect hands the CONNACK to the state machine: it succeeds unless the broker announces
-        receive-maximum 0, in which case poll() returns the error and the connection stays up. *)
+        receive-maximum 0, in which case the connection attempt ends like any failure (clean(), the
+        error is returned, the next poll() reconnects: commit 6b2911f; before it the connection stayed up). *)
 From Coq Require Import Arith ZifyBool ZifyN ZifyNat.
 From Rumqtt Require Import Client.VecLemmas Client.State5 Client.Inv5 Client.Eff5 Client.Flow5 Client.Loop5.
 
@@ -81,7 +82,8 @@ Proof.
   - destruct (connected5 l); [|exact Logic.I]. apply loop_clean5_spec. exact I.
   - destruct (connected5 l); [exact Logic.I|].
     pose proof (handle_incoming_packet5_inv (st5 l) (P5ConnAck session_present 0 receive_max topic_alias_max) I) as H.
-    destruct (handle_incoming_packet5 (st5 l) _) as [[s' rp] | [s' e] | t]; cbn [post5] in H; try exact H; contradiction.
+    destruct (handle_incoming_packet5 (st5 l) _) as [[s' rp] | [s' e] | t]; cbn [post5] in H; try exact H; try contradiction.
+    match goal with |- Inv5 (st5 (loop_clean5 ?x)) => apply (loop_clean5_spec x) end. exact H.
 Qed.
 
 Theorem lrun5_inv h : forall l, Inv5 (st5 l) -> k7_5 l h = false -> exists l', lrun5 l h = Some l' /\ Inv5 (st5 l').
@@ -144,20 +146,64 @@ Proof.
   exists l'. repeat split; assumption.
 Qed.
 
-(** the refused CONNACK (receive-maximum 0: F37): poll() returns the error, nothing is cleaned, the
-    connection stays up; the window and what is pending are what they were *)
-Theorem reconnect5_refused l sp tam : connected5 l = false ->
+(** what [clean] leaves pending, without any invariant *)
+Lemma loop_clean5_pending l :
+  pending5 (loop_clean5 l) = held5 (st5 l) ++ pending5 l ++ filter not_puback5 (chan5 l) /\
+  connected5 (loop_clean5 l) = false /\ chan5 (loop_clean5 l) = [] /\ held5 (st5 (loop_clean5 l)) = [] /\
+  wire5 (loop_clean5 l) = wire5 l.
+Proof.
+  unfold loop_clean5. pose proof (clean5_returns_held (st5 l)) as [H1 H2].
+  destruct (clean5 (st5 l)) as [s' reqs]. cbn [fst snd] in *. cbn [st5 connected5 chan5 pending5 wire5].
+  rewrite H1. repeat split. exact H2.
+Qed.
+
+(** the refused CONNACK (receive-maximum 0: F37) ends the connection attempt (fix: commit 6b2911f,
+    F38): poll() returns the error, clean() has run: the loop is disconnected, everything the state
+    machine held and everything that was queued is pending for the next connection *)
+Theorem reconnect5_refused_closes l sp tam : connected5 l = false ->
   exists l', lstep5 l (Reconnect5 sp (Some 0) tam) = Failed5 l' (LE5State (E5ConnFail 130)) /\
-    connected5 l' = true /\ pending5 l' = (if sp then pending5 l else []) /\ s5_max (st5 l') = s5_max (st5 l) /\
-    s5_pub (st5 l') = s5_pub (st5 l) /\ s5_rel (st5 l') = s5_rel (st5 l) /\ s5_collision (st5 l') = s5_collision (st5 l).
+    connected5 l' = false /\ chan5 l' = [] /\ held5 (st5 l') = [] /\
+    pending5 l' = held5 (st5 l) ++ (if sp then pending5 l else []) ++ filter not_puback5 (chan5 l).
 Proof.
   intros Hc. unfold lstep5. cbn [lstep5_gen]. rewrite Hc.
   change (handle_incoming_packet5 (st5 l) (P5ConnAck sp 0 (Some 0) tam))
     with (handle_incoming_connack5 (push5 (st5 l) (Ev5In (P5ConnAck sp 0 (Some 0) tam))) 0 (Some 0) tam).
   destruct (handle_incoming_connack5_eff (push5 (st5 l) (Ev5In (P5ConnAck sp 0 (Some 0) tam))) 0 (Some 0) tam)
     as [[H _] | [[_ [_ E]] | [_ [H _]]]]; [congruence| |congruence].
+  rewrite E. eexists. split; [reflexivity|].
+  match goal with |- context [loop_clean5 ?x] => destruct (loop_clean5_pending x) as [Hp [Hcn [Hch [Hh _]]]] end.
+  split; [exact Hcn|]. split; [exact Hch|]. split; [exact Hh|]. rewrite Hp. cbn [with_st5 pending5 chan5 st5].
+  f_equal. unfold held5. destruct tam; cbn [alias_taken5]; sproj5; reflexivity.
+Qed.
+
+(** before commit 6b2911f ([lstep5_keep]): poll() returned the error, nothing was cleaned, the
+    connection stayed up and in use with the previous connection's window *)
+Theorem reconnect5_refused_kept_before_fix l sp tam : connected5 l = false ->
+  exists l', lstep5_keep l (Reconnect5 sp (Some 0) tam) = Failed5 l' (LE5State (E5ConnFail 130)) /\
+    connected5 l' = true /\ pending5 l' = (if sp then pending5 l else []) /\ s5_max (st5 l') = s5_max (st5 l) /\
+    s5_pub (st5 l') = s5_pub (st5 l) /\ s5_rel (st5 l') = s5_rel (st5 l) /\ s5_collision (st5 l') = s5_collision (st5 l).
+Proof.
+  intros Hc. unfold lstep5_keep. cbn [lstep5_gen]. rewrite Hc.
+  change (handle_incoming_packet5 (st5 l) (P5ConnAck sp 0 (Some 0) tam))
+    with (handle_incoming_connack5 (push5 (st5 l) (Ev5In (P5ConnAck sp 0 (Some 0) tam))) 0 (Some 0) tam).
+  destruct (handle_incoming_connack5_eff (push5 (st5 l) (Ev5In (P5ConnAck sp 0 (Some 0) tam))) 0 (Some 0) tam)
+    as [[H _] | [[_ [_ E]] | [_ [H _]]]]; [congruence| |congruence].
   rewrite E. eexists. split; [reflexivity|]. cbn [with_st5 pending5 connected5 st5].
   destruct tam; cbn [alias_taken5]; sproj5; repeat split.
+Qed.
+
+(** C02 across a refused CONNACK: a failure followed by a reconnect whose CONNACK is refused loses
+    nothing: every held publish / release is still pending when the loop is down again *)
+Theorem resume_refused_holds_all5 l tam : Inv5 (st5 l) -> connected5 l = true ->
+  exists l1 l2, lstep5 l Fail5 = Stepped5 l1 /\
+    lstep5 l1 (Reconnect5 true (Some 0) tam) = Failed5 l2 (LE5State (E5ConnFail 130)) /\ connected5 l2 = false /\
+    forall r, holds5 (st5 l) r -> List.In r (pending5 l2).
+Proof.
+  intros I Hc. destruct (loop_clean5_spec l I) as [I1 [Hc1 [Hch [Hh Hpend]]]].
+  destruct (reconnect5_refused_closes (loop_clean5 l) true tam Hc1) as [l2 [E [Hcn [_ [_ Hp]]]]].
+  exists (loop_clean5 l), l2. unfold lstep5 at 1. cbn [lstep5_gen]. rewrite Hc. split; [reflexivity|].
+  split; [exact E|]. split; [exact Hcn|]. intros r Hr. rewrite Hp, Hpend.
+  apply in_or_app. right. apply in_or_app. left. apply in_or_app. left. apply in_held5; assumption.
 Qed.
 
 (** C11 / C02: what a failure leaves for the next connection, and that it is served first *)
